@@ -161,6 +161,7 @@ type faultSpec struct {
 }
 
 type scriptCase struct {
+	Ctx      string       `json:"query_context,omitempty"`
 	IterGate int          `json:"suspend_iterator_at_yield,omitempty"` // 1-based; 0 = no
 	Steps    []scriptStep `json:"steps"`
 	Faults   []faultSpec  `json:"faults,omitempty"`
@@ -496,7 +497,25 @@ func runOneScript(rc *RunCtx, i, k int, sw *scriptWorld, sc *scriptCase, q *bs.Q
 	}
 	anomBefore := len(sw.log.AnomalyList())
 
-	ctx, cancel := context.WithCancel(context.Background())
+	// The Query context is a plain cancellable one, or one that also carries a far-away deadline
+	// (cancelled by its own cancel func or through its parent): cancelling it early is a
+	// cancellation like any other, whatever the deadline says.
+	var ctx context.Context
+	var cancel context.CancelFunc
+	switch (i + k) % 3 {
+	case 0:
+		ctx, cancel = context.WithCancel(context.Background())
+	case 1:
+		c, cf := context.WithTimeout(context.Background(), time.Hour)
+		ctx, cancel = c, cf
+		sc.Ctx = "timeout(1h), cancelled by its own cancel func"
+	default:
+		parent, pcancel := context.WithCancel(context.Background())
+		c, cf := context.WithDeadline(parent, time.Now().Add(2*time.Hour))
+		ctx, cancel = c, func() { pcancel(); _ = cf }
+		defer cf()
+		sc.Ctx = "deadline(2h) under a parent that gets cancelled"
+	}
 	defer cancel()
 	rs, err := e.Query(ctx, q)
 	if err != nil {
